@@ -54,7 +54,43 @@ impl Rng {
     pub fn pick<'a, T>(&mut self, xs: &'a [T]) -> &'a T {
         &xs[self.below(xs.len())]
     }
+    pub fn ps(&mut self, xs: &[&'static str]) -> &'static str {
+        xs[self.below(xs.len())]
+    }
     pub fn shuffle<T>(&mut self, xs: &mut [T]) {
+        for i in (1..xs.len()).rev() {
+            let j = self.below(i + 1);
+            xs.swap(i, j);
+        }
+    }
+}
+
+/// Same generator behind a Cell, so that `self.f(self.rng.below(3))` type-checks in builders.
+pub struct CRng(pub std::cell::Cell<u64>);
+
+impl CRng {
+    pub fn next(&self) -> u64 {
+        let mut r = Rng(self.0.get());
+        let v = r.next();
+        self.0.set(r.0);
+        v
+    }
+    pub fn below(&self, n: usize) -> usize {
+        (self.next() % (n as u64)) as usize
+    }
+    pub fn range(&self, lo: usize, hi_incl: usize) -> usize {
+        lo + self.below(hi_incl - lo + 1)
+    }
+    pub fn chance(&self, num: usize, den: usize) -> bool {
+        self.below(den) < num
+    }
+    pub fn pick<'a, T>(&self, xs: &'a [T]) -> &'a T {
+        &xs[self.below(xs.len())]
+    }
+    pub fn ps(&self, xs: &[&'static str]) -> &'static str {
+        xs[self.below(xs.len())]
+    }
+    pub fn shuffle<T>(&self, xs: &mut [T]) {
         for i in (1..xs.len()).rev() {
             let j = self.below(i + 1);
             xs.swap(i, j);
@@ -265,22 +301,34 @@ pub struct Known {
 }
 
 pub fn load_known() -> Vec<Known> {
-    let p = format!("{}/known_findings.jsonl", VERIF_DIR);
+    // /verif/known_findings.txt, one finding per line:
+    //   open: property=<id> signature=<exact signature> <what fails>
+    //   fixed: property=<id> <commit> <what failed>          (a log entry; suppresses nothing)
+    let p = format!("{}/known_findings.txt", VERIF_DIR);
     let mut v = vec![];
     if let Ok(s) = std::fs::read_to_string(&p) {
         for line in s.lines() {
             let line = line.trim();
-            if line.is_empty() || line.starts_with('#') {
+            let (status, rest) = if let Some(r) = line.strip_prefix("open:") {
+                ("open", r.trim())
+            } else if let Some(r) = line.strip_prefix("fixed:") {
+                ("fixed", r.trim())
+            } else {
                 continue;
+            };
+            let mut property = String::new();
+            let mut signature = String::new();
+            let mut what = vec![];
+            for w in rest.split(' ') {
+                if let Some(p) = w.strip_prefix("property=") {
+                    property = p.to_string();
+                } else if let (Some(sg), true) = (w.strip_prefix("signature="), status == "open") {
+                    signature = sg.to_string();
+                } else {
+                    what.push(w);
+                }
             }
-            if let Ok(j) = serde_json::from_str::<Value>(line) {
-                v.push(Known {
-                    property: j["property"].as_str().unwrap_or("").to_string(),
-                    signature: j["signature"].as_str().unwrap_or("").to_string(),
-                    status: j["status"].as_str().unwrap_or("").to_string(),
-                    what: j["what"].as_str().unwrap_or("").to_string(),
-                });
-            }
+            v.push(Known { property, signature, status: status.to_string(), what: what.join(" ") });
         }
     }
     v
